@@ -55,5 +55,17 @@ DridPartners(bonds, sel, i) == { j \in sel : j # i /\ ~\E b \in 1..Len(bonds) : 
 SortedSeq(S) == LET RECURSIVE F(_) F(T) == IF T = {} THEN <<>> ELSE LET x == CHOOSE y \in T : \A z \in T : y <= z IN <<x>> \o F(T \ {x}) IN F(S)
 DridD2(pos, bonds, sel, i) == LET ps == SortedSeq(DridPartners(bonds, sel, i)) IN [m \in 1..Len(ps) |-> <<ps[m], N2(Sub(pos[i], pos[ps[m]]))>>]
 \* ---- dipole moment of a neutral charge set: sum q x (origin independent) ------------------------------------------------
+\* periodic variant as documented: sum_i q_i ( mic(r_first(i) - r_1) + mic(r_i - r_first(i)) ) with first(i) the first atom of i's residue;
+\* defined only where every minimum image involved is unique and below half the smallest cell width
+FirstOf(atoms, i) == CHOOSE j \in 1..Len(atoms) : atoms[j].res = atoms[i].res /\ \A k \in 1..Len(atoms) : atoms[k].res = atoms[i].res => j <= k
+\* (for cells with even entries the half-width test is made on the halved cell: the direct one overflows TLC's 32-bit integers)
+AllEven(c) == \A i \in 1..3, j \in 1..3 : c[i][j] % 2 = 0
+HalfCell(c) == << <<c[1][1] \div 2, c[1][2] \div 2, c[1][3] \div 2>>, <<c[2][1] \div 2, c[2][2] \div 2, c[2][3] \div 2>>, <<c[3][1] \div 2, c[3][2] \div 2, c[3][3] \div 2>> >>
+InHalf(d2, c) == IF AllEven(c) THEN BelowHalfWidth((d2 + 3) \div 4, HalfCell(c)) ELSE BelowHalfWidth(d2, c)
+MicOK(r, cell) == LET vs == AlgoVec(r, cell) IN Cardinality(vs) = 1 /\ \A v \in vs : InHalf(N2(v), cell)
+MicVec(r, cell) == CHOOSE v \in AlgoVec(r, cell) : TRUE
+DipolePeriodicOK(atoms, pos, cell) == \A i \in 1..Len(atoms) : MicOK(Sub(pos[FirstOf(atoms, i)], pos[1]), cell) /\ MicOK(Sub(pos[i], pos[FirstOf(atoms, i)]), cell)
+DipolePeriodic(q, atoms, pos, cell) == [c \in 1..3 |-> SumOverAtoms(Len(pos), LAMBDA i :
+     q[i] * (MicVec(Sub(pos[FirstOf(atoms, i)], pos[1]), cell)[c] + MicVec(Sub(pos[i], pos[FirstOf(atoms, i)]), cell)[c]))]
 DipoleNum(q, pos) == [c \in 1..3 |-> SumOverAtoms(Len(pos), LAMBDA i : q[i] * pos[i][c])]
 =======================================================================
